@@ -145,6 +145,36 @@ def numeric_statements(r, n, pts_override=None):
                             lat=(float(np.ravel(a1)[0])), alt=float(np.ravel(a2)[0]), form=form, function=fname,
                             lats=np.ravel(a1).tolist(), alts=np.ravel(a2).tolist(),
                             got=(np.asarray(got).tolist() if not isinstance(got, str) else got))
+    # table form of lla_to_ned: same numbers as the array form, carried by the SAME row labels and the documented
+    # columns, whatever the index (time stamps, decimated or reversed integer labels) and column order of the input
+    if pts_override is None:
+        import pandas as pd
+        near = []
+        for k in range(3):
+            la0, lo0, al0 = rng.uniform(-80, 80), rng.uniform(-179, 179), rng.uniform(-100, 5000)
+            n_ = rng.choice([2, 5, 12])
+            arr_ = np.array([[la0 + rng.uniform(-1e-2, 1e-2), lo0 + rng.uniform(-1e-2, 1e-2), al0 + rng.uniform(-50, 50)]
+                             for _ in range(n_)])
+            for label_kind, idx in (("time stamps", 100.0 + 0.5 * np.arange(n_)), ("decimated", 2 * np.arange(n_) + 3),
+                                    ("counting down", np.arange(n_)[::-1]), ("default", None)):
+                for cols in (["lat", "lon", "alt"], ["alt", "lat", "lon"]):
+                    df = pd.DataFrame(arr_, columns=["lat", "lon", "alt"], index=idx)[cols]
+                    for origin in (None, arr_[-1]):
+                        want = transform.lla_to_ned(arr_, origin)
+                        try:
+                            got = transform.lla_to_ned(df, origin)
+                            ok = (isinstance(got, pd.DataFrame) and list(got.columns) == ["north", "east", "down"]
+                                  and list(got.index) == list(df.index)
+                                  and np.abs(got.values - want).max() <= 1e-9 * max(1.0, np.abs(want).max())
+                                  and all(np.abs(got.loc[lab].values - want[i]).max() <= 1e-9 * max(1.0, np.abs(want).max())
+                                          for i, lab in enumerate(df.index)))
+                        except Exception as ex:
+                            ok, got = False, repr(ex)
+                        if not ok:
+                            bad("lla_to_ned: DataFrame form does not give the array form's NED coordinates under the "
+                                "input's row labels / documented columns", lla=[float(x) for x in arr_[0]],
+                                index=label_kind, columns=cols, origin=(None if origin is None else list(map(float, origin))),
+                                rows=arr_.tolist())
     # scalar vs vectorised
     arr = np.array(pts[:50])
     st = transform.lla_to_ecef(arr)
